@@ -395,6 +395,10 @@ def bce_loss_backward(grad: np.ndarray, y_pred: np.ndarray, y_true: np.ndarray) 
     return loss_grad
 
 
+def bce_loss_target_backward(grad: np.ndarray, y_pred: np.ndarray) -> np.ndarray:
+    return (np.log(1 - y_pred + epsilon) - np.log(y_pred + epsilon)) * grad
+
+
 def bce_with_logits_loss_forward(y_pred: np.ndarray, y_true: np.ndarray) -> np.ndarray:
     tn = relu_forward(-y_pred) # max(-x, 0): both exponentials below have non-positive arguments
     loss = (1-y_true) * y_pred + tn + np.log(np.exp(-tn) + np.exp((-y_pred-tn)))
